@@ -110,6 +110,7 @@ func (s *State) keys() []string {
 // Script: ordered list of SMT commands for one verification unit
 
 type Obligation struct {
+	timedOut bool // the last race ran a solver into its time limit
 	Name    string
 	Kind    string // requires, ensures, exsures, invariant-entry, invariant-preserved, crash, frame, nopanic, decreases, cover
 	Props   []string
